@@ -127,7 +127,7 @@ package model
 //@ func NewScaledNumberType qf
 //@   spec KF() float64
 //@   spec D() int
-//@   requires dom: 0 <= D() && D() <= 4 && fintegral(KF()) && flt(fabs(KF()), tofp(tier(2048, 1048576)))
+//@   requires dom: 0 <= D() && D() <= 4 && fintegral(KF()) && flt(fabs(KF()), tofp(tier(2048, 65536)))
 //@   requires val0: D() == 0 ==> value == KF()
 //@   requires val1: D() == 1 ==> value == fdiv(KF(), tofp(10))
 //@   requires val2: D() == 2 ==> value == fdiv(KF(), tofp(100))
@@ -144,7 +144,7 @@ package model
 //@ func (*ScaledNumberType).GetValue qf
 //@   spec KF() float64
 //@   spec D() int
-//@   requires m != nil && m.Number != nil && m.Scale != nil && i2f(*m.Number) == KF() && *m.Scale == 0 - D() && 0 <= D() && D() <= 4 && fintegral(KF()) && flt(fabs(KF()), tofp(tier(2048, 1048576)))
+//@   requires m != nil && m.Number != nil && m.Scale != nil && i2f(*m.Number) == KF() && *m.Scale == 0 - D() && 0 <= D() && D() <= 4 && fintegral(KF()) && flt(fabs(KF()), tofp(tier(2048, 65536)))
 //@   ensures[C19] roundtrip-d0: D() == 0 ==> result == KF()
 //@   ensures[C19] roundtrip-d1: D() == 1 ==> result == fdiv(KF(), tofp(10))
 //@   ensures[C19] roundtrip-d2: D() == 2 ==> result == fdiv(KF(), tofp(100))
